@@ -4,6 +4,7 @@
    theorems say these outcomes are unreachable. *)
 From Bita Require Import Model.Base Model.Chunker Model.Proto Model.Archive Model.HttpReader.
 From Bita Require Import Proofs.ChunkerRefine Proofs.ArchiveSafe.
+From Bita Require Import Model.CloneHttpModel Proofs.CloneHttpSafe.
 
 (* opening ANY byte string as an archive ends in Ok or a reported error *)
 Theorem C15_open_total : forall (H : list N -> list N) (f : list N),
@@ -30,7 +31,15 @@ Theorem C15_scan_total : forall (H : list N -> list N) read_at a data evs, try_i
   Forall (fun e => e <> EvRead 0) evs -> exists l, chunk_stream (a_cfg a) data evs = Ok l.
 Proof. exact accepted_archive_scan_total. Qed.
 
+(* processing ANY responses of a remote server: the whole clone over http against any server script, any archive
+   bytes behind it, any hash and codec, ends in Ok or Err -- never a panic outcome, never out of fuel *)
+Theorem C15_http_clone_total :
+  forall (H : list N -> list N) (decomp : N -> list N -> option (list N)) f retries script,
+    match fst (http_clone H decomp f retries script) with Ok _ | Err _ => True | Panic _ | OutOfFuel => False end.
+Proof. exact http_clone_total. Qed.
+
 Print Assumptions C15_open_total.
 Print Assumptions C15_open_total_any_reader.
 Print Assumptions C15_accepted_archive_safe.
 Print Assumptions C15_scan_total.
+Print Assumptions C15_http_clone_total.
